@@ -150,17 +150,28 @@ def r14_1(ctx, g):
                     return _copy.deepcopy(env[n.id])
                 return n
 
-        def res(e):
+        def res_node(e):
             e = _copy.deepcopy(e)
             for _ in range(4):
                 e2 = _R().visit(_copy.deepcopy(e))
                 if ast.dump(e2) == ast.dump(e):
                     break
                 e = e2
-            return norm(ast.fix_missing_locations(e)).replace("self.nodes[", "self[")
+            return ast.fix_missing_locations(e)
+
+        def res(e):
+            return norm(res_node(e)).replace("self.nodes[", "self[")
+
+        # `cases.get(key)` followed by an `is None` test reads the table like `cases[key]`
+        for c_ in list(walk_own(pl0)):
+            if isinstance(c_, ast.Call) and isinstance(c_.func, ast.Attribute) and c_.func.attr == "get" and norm(c_.func.value) == cname and len(c_.args) == 1 and not c_.keywords:
+                sub_ = ast.Subscript(value=c_.func.value, slice=c_.args[0], ctx=ast.Load())
+                for k_, v_ in list(env.items()):
+                    if v_ is c_:
+                        env[k_] = ast.copy_location(sub_, c_)
 
         row = f"{cname}[{prev}[0], {cur}[0]]"
-        src_all = [res(x) for x in walk_own(pl0) if isinstance(x, (ast.Subscript,)) and norm(x.value) == cname]
+        src_all = [res(x) for x in walk_own(pl0) if isinstance(x, (ast.Subscript,)) and norm(x.value) == cname] + [res(v_) for v_ in env.values() if isinstance(v_, ast.Subscript) and norm(v_.value) == cname]
         uses_ok = any(t.replace("(", "").replace(")", "") == row for t in src_all)
         look = [c for c in walk_own(pl0) if isinstance(c, ast.Call) and norm(c.func) == "getattr" and len(c.args) == 2]
         ok_get = len(look) == 1 and res(look[0].args[0]) == f"self[{prev}[1:]]" and res(look[0].args[1]).replace("(", "").replace(")", "") == row + "[0]"
@@ -174,7 +185,7 @@ def r14_1(ctx, g):
             conj = c.values if isinstance(c, ast.BoolOp) and isinstance(c.op, ast.And) else [c]
             for q in conj:
                 if isinstance(q, ast.Compare) and len(q.ops) == 1 and isinstance(q.ops[0], ast.Eq):
-                    l_, r_ = q.left, q.comparators[0]
+                    l_, r_ = res_node(q.left), res_node(q.comparators[0])
                     if isinstance(l_, ast.Tuple) and isinstance(r_, ast.Tuple) and len(l_.elts) == len(r_.elts):
                         eqs += [(res(a), res(b)) for a, b in zip(l_.elts, r_.elts)]
                     else:
@@ -529,6 +540,16 @@ def r14_4(ctx):
                 badp = (p, "the output loop is left early")
                 break
             shown = [norm(x) for x in prints]
+            if isinstance(l.target, ast.Name):
+                # a record that is a module-level namedtuple: `rec.field` reads `rec[position]`
+                import re as _re
+                from ..core import namedtuple_tables
+
+                tables, _ = namedtuple_tables(ctx.repo)
+                for fields in tables.get(run.module.name, {}).values():
+                    if any(_re.search(rf"\b{l.target.id}\.{fld}\b", t_) for t_ in shown for fld in fields):
+                        for i_, fld in enumerate(fields):
+                            shown = [_re.sub(rf"\b{l.target.id}\.{fld}\b", f"{l.target.id}[{i_}]", t_) for t_ in shown]
             if mode is None:
                 raise AnalysisError("R14.4", run.where(l), "cannot tell whether an output path is the FASTA or the plain one")
             seen_modes.add(mode)
